@@ -310,6 +310,9 @@ func runC08(c *Ctx) {
 	// sequential history sees the difference when a delete callback uses the cache while the sweep has let go of the mutex
 	c.lruOpsAtomic(resolveLRURoles(c), "C08.R12")
 	c.R.Floor("C08.R12", 2)
+	// R13 (x_c08_i.go, = the helper-composed clause of C09.R2): release of the in-flight record and insert in ONE section
+	c.lruMissCompletesInOneSectionI(resolveLRURoles(c), "C08.R13")
+	c.R.Floor("C08.R13", 1)
 	// M: the ordered map under the recency list
 	mapRules(c, "C08.M")
 }
